@@ -5,7 +5,6 @@ import (
 	"encoding/json"
 	"math"
 	"math/big"
-	"sort"
 	"strconv"
 	"strings"
 
@@ -186,49 +185,6 @@ func (j *jt) coq() string {
 		items[i] = vx.Pair(coqStr(j.keys[i]), j.vals[i].coq())
 	}
 	return "(JObj " + vx.List(items) + ")"
-}
-
-// canonMaps sorts the entries of the objects that come from Go maps (iteration order leaks into JSONEncode).
-func canonMaps(s *Schema, j *jt) {
-	if j == nil {
-		return
-	}
-	switch s.Kind {
-	case "struct":
-		if j.k == 'o' {
-			for _, f := range s.Fields {
-				canonMaps(f.S, j.get(f.Key()))
-			}
-		}
-	case "slice", "arr":
-		for _, e := range j.arr {
-			canonMaps(s.Elem, e)
-		}
-	case "map":
-		if j.k == 'o' {
-			idx := make([]int, len(j.keys))
-			for i := range idx {
-				idx[i] = i
-			}
-			sort.Slice(idx, func(a, b int) bool { return j.keys[idx[a]] < j.keys[idx[b]] })
-			ks, vs := make([]string, len(idx)), make([]*jt, len(idx))
-			for i, x := range idx {
-				ks[i], vs[i] = j.keys[x], j.vals[x]
-				canonMaps(s.Elem, vs[i])
-			}
-			j.keys, j.vals = ks, vs
-		}
-	case "iface":
-		if j.k == 'o' {
-			if t := j.get("type"); t != nil && t.k == '#' {
-				for _, a := range s.Alts {
-					if strconv.FormatInt(a.Code, 10) == t.num {
-						canonMaps(a, j)
-					}
-				}
-			}
-		}
-	}
 }
 
 // paths enumerates the sub-trees (parent, index) of a document, the root excluded.
